@@ -81,6 +81,9 @@ def spell_impl(a):
         # default omitted == default passed explicitly
         if sel.get("use_default_yz"):
             sp = [((x, dy, dz), {}), ((x,), {}), ((), {"x": x}), ((x,), {"z": dz})]
+        elif sel.get("use_default_y"):
+            z = _val(sel["zkind"], a, "z")
+            sp = [((x, dy, z), {}), ((x,), {"z": z}), ((), {"z": z, "x": x}), ((x, dy), {"z": z})]
         elif sel.get("use_default_z"):
             y = _val(sel["ykind"], a, "y")
             sp = [((x, y, dz), {}), ((x, y), {}), ((x,), {"y": y}), ((), {"y": y, "x": x})]
@@ -124,10 +127,10 @@ def src_impl(a):
     w = _new_world()
     ok = True
     if sel["group"] == "spellings":
-        s = dict((r, _sig(w, None, root=r)) for r in ("root_pos", "root_kw", "root_kw2", "root_def", "root_defx", "root_defk", "root_other", "root_kw_other", "root_ykw", "root_ykw_other", "root_swap", "root_same"))
+        s = dict((r, _sig(w, None, root=r)) for r in ("root_pos", "root_kw", "root_kw2", "root_def", "root_defx", "root_defk", "root_other", "root_kw_other", "root_ykw", "root_ykw_other", "root_zkw", "root_zkw_other", "root_zpos", "root_swap", "root_same"))
         direct = _sig(w, "g3", (1, 7, "q"))
-        same = [("root_pos", "root_kw"), ("root_pos", "root_kw2"), ("root_def", "root_defx"), ("root_def", "root_defk")]
-        diff = [("root_pos", "root_def"), ("root_pos", "root_other"), ("root_swap", "root_same"), ("root_kw", "root_kw_other"), ("root_ykw", "root_ykw_other"), ("root_ykw", "root_def")]
+        same = [("root_pos", "root_kw"), ("root_pos", "root_kw2"), ("root_def", "root_defx"), ("root_def", "root_defk"), ("root_zkw", "root_zpos")]
+        diff = [("root_pos", "root_def"), ("root_pos", "root_other"), ("root_swap", "root_same"), ("root_kw", "root_kw_other"), ("root_ykw", "root_ykw_other"), ("root_ykw", "root_def"), ("root_zkw", "root_zkw_other"), ("root_zkw", "root_def")]
         for (p, q) in same:
             if s[p] != s[q] or isinstance(s[p], tuple):
                 ok = False
@@ -154,7 +157,7 @@ def src_impl(a):
 
 def known_falsy_default(sel, A):
     """omitted falsy default vs the same value passed explicitly (gf: y=0, z=None)."""
-    return sel.get("fn") == "gf" and (sel.get("use_default_z") or sel.get("use_default_yz"))
+    return sel.get("fn") == "gf" and (sel.get("use_default_z") or sel.get("use_default_yz") or sel.get("use_default_y"))
 
 
 def known_negative_literal(sel, A):
@@ -183,7 +186,7 @@ def make_fn(fn, sel, tag):
         if sel["fn"] == "g2":
             add("y", "int")
         else:
-            if not sel.get("use_default_yz"):
+            if not (sel.get("use_default_yz") or sel.get("use_default_y")):
                 add("y", sel["ykind"])
             if not (sel.get("use_default_z") or sel.get("use_default_yz")):
                 add("z", sel["zkind"])
@@ -206,6 +209,7 @@ def queries(tier):
         qs.append({"id": "spell.%s.full" % f, "fn": "spell", "sel": {"fn": f, "ykind": "int", "zkind": "str"}, "timeout": 500})
         qs.append({"id": "spell.%s.default_z" % f, "fn": "spell", "sel": {"fn": f, "ykind": "int", "zkind": "str", "use_default_z": True}, "timeout": 500})
         qs.append({"id": "spell.%s.default_yz" % f, "fn": "spell", "sel": {"fn": f, "ykind": "int", "zkind": "str", "use_default_yz": True}, "timeout": 500})
+        qs.append({"id": "spell.%s.default_y" % f, "fn": "spell", "sel": {"fn": f, "ykind": "int", "zkind": "str", "use_default_y": True}, "timeout": 500})
     qs.append({"id": "spell.gf.none", "fn": "spell", "sel": {"fn": "gf", "ykind": "bool", "zkind": "none"}, "timeout": 500})
     qs.append({"id": "distinct.g2", "fn": "distinct", "sel": {"fn": "g2"}, "timeout": 600})
     qs.append({"id": "distinct.g3", "fn": "distinct", "sel": {"fn": "g3"}, "timeout": 600})
